@@ -60,6 +60,10 @@ func runMain(args []string) {
 	if c.NoMerge {
 		extra = append(extra, "-no-merge")
 	}
+	if c.DumpDir != "" {
+		os.MkdirAll(c.DumpDir, 0o755)
+		extra = append(extra, "-dump-dir", c.DumpDir)
+	}
 	t0 := time.Now()
 	if jobs > len(hs)*64 {
 		jobs = len(hs) * 64
